@@ -29,7 +29,9 @@ BadRT(e) ==
                \cup T(OnlyTrailingNulDiff(t, e.p2, p), "C01.roundtrip.binary_trailing_nul")
                \cup T(HasHeader(t) /\ e.hlen2 # BE(Len(e.bytes), 4) /\ PrefixOK(t, e.bytes), "C01.header_length")
                \cup T(Conforms(t, p, e.bytes) /\ ~Eq(t, e.p2, p) /\ ~OnlyTrailingNulDiff(t, e.p2, p), "C02.reads")
-               \cup T(Conforms(t, p, e.bytes) /\ OnlyTrailingNulDiff(t, e.p2, p), "C02.reads.binary_trailing_nul"))
+               \cup T(Conforms(t, p, e.bytes) /\ OnlyTrailingNulDiff(t, e.p2, p), "C02.reads.binary_trailing_nul")
+               \* the dispatcher of the package reads the same image: same type, same field values as IDecode
+               \cup T(e.dtype # "skip" /\ (e.dtype # t \/ ~e.dsame), "C02.reads.dispatcher"))
   ELSE IF TooLongOnly(t, p) THEN T(~e.encerr, "C01.toolong_accepted")
   ELSE {}
 
